@@ -213,7 +213,12 @@ def check_in(prop, tier, spec, seed, workdir, t0):
 
     # ---- generated search ----------------------------------------------------
     jobs = []
+    fuzz_legs = []
     for li, leg in enumerate(legs):
+        if leg.get("kind") == "fuzz":
+            if tier in leg:
+                fuzz_legs.append((li, leg, leg[tier]))
+            continue
         cfg = leg[tier] if tier in leg else leg["quick"]
         nshards = cfg.get("shards", 1)
         for sh in range(nshards):
@@ -357,6 +362,69 @@ def check_in(prop, tier, spec, seed, workdir, t0):
                 violations.append((os.path.relpath(dst, ROOT), rf["message"][:300]))
                 continue
         inconclusive.append("%s shard %d: exit %s without a recorded failure:\n%s" % (leg["test"], sh, code, tail(out, 25)))
+
+    # ---- native coverage-guided fuzzing (thorough tier; uses all cores) ---------
+    fuzz_execs = 0
+    for li, leg, cfg in fuzz_legs:
+        if violations:
+            break  # a shallow failure would end the campaign in seconds anyway
+        name = leg["test"]
+        fp = os.path.join(workdir, "fail.fuzz%d.json" % li)
+        e = env_base()
+        e["VERIF_TIER"] = tier
+        e["VERIF_FAIL_OUT"] = fp
+        e.pop("VERIF_STATS_OUT", None)
+        e.pop("VERIF_JOURNAL", None)
+        crashdir = os.path.join(ROOT, "checks", "testdata", "fuzz", name)
+        shutil.rmtree(crashdir, ignore_errors=True)
+        cmd = ["go", "test", "-run", "^$", "-fuzz", "^%s$" % name, "-fuzztime", "%ds" % cfg["fuzztime"],
+               "-parallel", str(MAXPROCS), "-test.fuzzcachedir", os.path.join(workdir, "fuzzcache"), "./checks"]
+        try:
+            p = subprocess.run(cmd, cwd=ROOT, env=e, stdout=subprocess.PIPE, stderr=subprocess.STDOUT, text=True,
+                               errors="replace", timeout=cfg["fuzztime"] + 600)
+            out, code = p.stdout, p.returncode
+        except subprocess.TimeoutExpired as ex:
+            out, code = (ex.stdout or b"").decode(errors="replace") if isinstance(ex.stdout, bytes) else (ex.stdout or ""), "timeout"
+        n = 0
+        for line in out.splitlines():
+            if "execs:" in line:
+                try:
+                    n = max(n, int(line.split("execs:")[1].split()[0]))
+                except Exception:
+                    pass
+        fuzz_execs += n
+        leg_summ[name] = {"evaluations": n, "processes": MAXPROCS, "fuzztime_s": cfg["fuzztime"]}
+        if code == 0:
+            continue
+        if code == "timeout":
+            inconclusive.append("%s: fuzzing did not stop in time" % name)
+            continue
+        crashers = sorted(os.listdir(crashdir)) if os.path.isdir(crashdir) else []
+        if os.path.exists(fp):
+            dst = save_replay(prop, fp)
+            try:
+                msg = json.load(open(fp)).get("message", "")
+            except Exception:
+                msg = ""
+            violations.append((os.path.relpath(dst, ROOT), "found by native fuzzing (%s): %s" % (name, msg)))
+        elif crashers:
+            # the worker died (fatal runtime error): rebuild the case from the saved fuzz input
+            tmp = os.path.join(workdir, "crasher.%d.json" % li)
+            e2 = env_base()
+            e2["VERIF_CRASHER"] = os.path.join(crashdir, crashers[0])
+            e2["VERIF_CRASHER_FUZZ"] = name
+            e2["VERIF_FAIL_OUT"] = tmp
+            subprocess.run([binary, "-test.run", "^TestConvertCrasher$", "-test.count=1"], cwd=os.path.join(ROOT, "checks"),
+                           env=e2, stdout=subprocess.PIPE, stderr=subprocess.STDOUT)
+            if os.path.exists(tmp):
+                dst = save_replay(prop, tmp)
+                violations.append((os.path.relpath(dst, ROOT), "native fuzzing (%s): worker process died on this input: %s" % (name, tail(out, 8))))
+            else:
+                inconclusive.append("%s: fuzz worker died and the input could not be converted:\n%s" % (name, tail(out, 20)))
+        else:
+            inconclusive.append("%s: go test -fuzz failed without a crasher:\n%s" % (name, tail(out, 20)))
+        shutil.rmtree(os.path.join(ROOT, "checks", "testdata"), ignore_errors=True)
+    evals += fuzz_execs
 
     distinct = enum_nt + merge_hashes(hash_files)
     # generator health
